@@ -4,6 +4,7 @@ from __future__ import annotations
 import csv
 import io
 import random
+import re
 import warnings
 
 from rdflib import BNode, Literal, URIRef, Variable
@@ -34,7 +35,11 @@ def tsv_cell(t, rng):
     if k == "bnode":
         return "_:" + t["v"]
     lex, dt, lang = t["v"], t.get("dt", ""), t.get("lang", "")
-    if dt in ("http://www.w3.org/2001/XMLSchema#integer", "http://www.w3.org/2001/XMLSchema#decimal", "http://www.w3.org/2001/XMLSchema#boolean") and rng.random() < 0.5 and lex.strip() == lex and lex:
+    X = "http://www.w3.org/2001/XMLSchema#"
+    # bare shorthand only where the Turtle / SPARQL grammar reads the same datatype back: INTEGER, DECIMAL (needs a '.'), DOUBLE (needs an exponent), true / false
+    bare = (dt == X + "integer" and re.fullmatch(r"[+-]?[0-9]+", lex)) or (dt == X + "decimal" and re.fullmatch(r"[+-]?[0-9]*\.[0-9]+", lex)) \
+        or (dt == X + "double" and re.fullmatch(r"[+-]?([0-9]+\.[0-9]*|\.[0-9]+|[0-9]+)[eE][+-]?[0-9]+", lex)) or (dt == X + "boolean" and lex in ("true", "false"))
+    if bare and rng.random() < 0.5:
         return lex          # bare shorthand
     q = '"'
     out = []
